@@ -7,6 +7,7 @@ import (
 	"net/netip"
 	"strings"
 	"testing"
+	"time"
 
 	"github.com/slackhq/nebula/header"
 	"pgregory.net/rapid"
@@ -64,9 +65,10 @@ func TestC36_WireLevel(t *testing.T) {
 		nsBubble(rt, func(rt *rapid.T, s *nsSim) {
 			lists := map[string][]c36nRule{}
 			denied := 0
+			triedWarm := false
 			h := nsRunHistory(rt, s, nsHistOpts{
 				pid: "C36",
-				world: nsWorldOpts{minHosts: 3, maxHosts: 4, lighthouse: 1, relay: 0, v6: false, extra: func(sp *nsNodeSpec, cfg nsM) {
+				world: nsWorldOpts{minHosts: 3, maxHosts: 4, lighthouse: 1, relay: 0.5, v6: false, extra: func(sp *nsNodeSpec, cfg nsM) {
 					if sp.role != nsHost {
 						return
 					}
@@ -108,7 +110,7 @@ func TestC36_WireLevel(t *testing.T) {
 					cfg["punchy"] = nsM{"punch": true, "respond": true, "delay": "100ms", "respond_delay": "200ms"}
 				}},
 				minSteps: 15, maxSteps: 60,
-				ops: []string{"tun", "tun", "tun", "tun", "deliver", "flush", "flush", "flush", "drop", "dup", "advance", "advance", "close", "rehandshake", "roamDenied", "roamDenied"},
+				ops: []string{"tun", "tun", "tun", "tun", "deliver", "flush", "flush", "flush", "drop", "dup", "advance", "advance", "close", "rehandshake", "roamDenied", "roamDenied", "directAfterRelay", "directAfterRelay"},
 				customOp: func(rt *rapid.T, hh *nsHist, op string) bool {
 					if hh.w.udpExtra == nil {
 						hh.w.udpExtra = func(src *nsNode, p *nsPacket) string {
@@ -133,6 +135,78 @@ func TestC36_WireLevel(t *testing.T) {
 							}
 							return ""
 						}
+					}
+					if op == "directAfterRelay" {
+						// Node x denies peer p's underlay address, so their tunnel came up through the relay and x
+						// holds no underlay address for p at all. Now p (which is free to use whatever path it
+						// found) sends authentic data straight from its own, denied, address. x must not adopt
+						// that address; afterwards x is made to send to p.
+						w, s := hh.w, hh.w.s
+						type pair struct{ xi, pi int }
+						var cands []pair
+						for xi, x := range w.nodes {
+							rules, has := lists[w.specs[xi].name]
+							if !has || !w.live(xi) {
+								continue
+							}
+							for pi, pn := range w.nodes {
+								if pi == xi || !w.live(pi) || w.specs[pi].role != nsHost || c36nAllowed(rules, pn.udpAddr.Addr()) {
+									continue
+								}
+								if pr, ok := lists[w.specs[pi].name]; ok && !c36nAllowed(pr, x.udpAddr.Addr()) {
+									continue // p itself must not send there: the harness would be forcing p's violation
+								}
+								hx := x.ctrl.f.hostMap.QueryVpnAddr(w.specs[pi].nets[0].Addr())
+								hp := pn.ctrl.f.hostMap.QueryVpnAddr(w.specs[xi].nets[0].Addr())
+								if hx != nil && hp != nil && !hx.GetRemote().IsValid() && hx.remoteIndexId == hp.localIndexId {
+									cands = append(cands, pair{xi, pi})
+								}
+							}
+						}
+						if len(cands) == 0 && !triedWarm {
+							// none yet: have some node talk to a peer whose address it denies, which can only work
+							// through the relay, and look again
+							triedWarm = true
+							for xi := range w.nodes {
+								rules, has := lists[w.specs[xi].name]
+								if !has || !w.live(xi) || w.relayIdx < 0 {
+									continue
+								}
+								for pi, pn := range w.nodes {
+									if pi != xi && w.live(pi) && w.specs[pi].role == nsHost && !c36nAllowed(rules, pn.udpAddr.Addr()) {
+										w.sendTagged(xi, pi, w.specs[pi].nets[0].Addr(), 40)
+									}
+								}
+							}
+							hh.runFor(4*time.Second, 100*time.Millisecond)
+							hh.note("warm-up: traffic towards denied peers, 4 s")
+							return true
+						}
+						if len(cands) == 0 {
+							return true
+						}
+						c := cands[rapid.IntRange(0, len(cands)-1).Draw(rt, "dar.pair")]
+						x, pn := w.nodes[c.xi], w.nodes[c.pi]
+						hp := pn.ctrl.f.hostMap.QueryVpnAddr(w.specs[c.xi].nets[0].Addr())
+						hp.SetRemote(x.udpAddr)
+						hh.note("%s sends straight to %s (which denies %v) over their relayed tunnel", pn.name, x.name, pn.udpAddr)
+						w.sendTagged(c.pi, c.xi, w.specs[c.xi].nets[0].Addr(), 40)
+						s.settle()
+						var rest []*nsPacket
+						for _, q := range s.takeInflight() {
+							if hd, ok := nsHeaderOf(q.Data); ok && q.Src == pn.idx && q.To == x.udpAddr && hd.Type == header.Message && hd.Subtype == header.MessageNone {
+								hh.deliverPkt(q)
+								vk.Label("C36", "direct-data-from-denied-address-on-a-relayed-tunnel")
+							} else {
+								rest = append(rest, q)
+							}
+						}
+						s.mu.Lock()
+						s.inflight = append(rest, s.inflight...)
+						s.mu.Unlock()
+						w.sendTagged(c.xi, c.pi, w.specs[c.pi].nets[0].Addr(), 40)
+						s.settle()
+						return true
 					}
 					if op != "roamDenied" {
 						return false
